@@ -51,6 +51,11 @@ def main():
     t0 = time.time()
     cases = [("reference", "/repo", None, ALL)]
     for d in sorted(os.listdir("/verif/seeded")):
+        try:
+            if json.load(open("/verif/seeded/%s/meta.json" % d)).get("retired"):
+                continue
+        except (OSError, ValueError):
+            pass
         cases.append(("seed", d, "/verif/seeded/%s/patch.diff" % d, [d.split("-")[0]]))
     for d in sorted(os.listdir("/verif/variants"), key=lambda x: int(x[1:])):
         cases.append(("variant", d, "/verif/variants/%s/patch.diff" % d, ALL))
